@@ -182,7 +182,7 @@ def key_of(c):
 
 reported = 0
 # smallest reproducers first: black-box directed, in-process directed, black-box random, then by size
-PRIO = {"cli-directed": 0, "directed": 1, "cli": 2, "variant": 3, "random": 3}
+PRIO = {"cli-directed": 0, "directed": 1, "matrix": 2, "cli": 2, "variant": 3, "random": 3}
 Vs.sort(key=lambda x: (PRIO.get(cases[x[0]]["Kind"], 9), sum(len(r["Diagnostics"] or []) for r in cases[x[0]]["Runs"] or []), x[0]))
 for i, diffs in Vs:
     if reported >= 8:
